@@ -22,7 +22,7 @@ THOROUGH = {
                                     "move": 5, "create": 4, "delete": 3, "rename": 3, "subscribe": 5, "poll": 6,
                                     "search": 0, "idle": 1, "done": 1, "fetch": 2, "fetchbody": 2},
                 world=dict(pack_limit=3, pack_ratio=0.75)),
-    "tlc_timeout": 3000,
+    "tlc_timeout": 1500,
    }
 
 def fn(ck, a):
